@@ -162,7 +162,7 @@ func runC02(src sim.Source, o Opts) *Result {
 	res := newResult()
 	cfg := world.DrawCfg(src)
 	pc := world.PoolCfg{Size: 3 + src.Intn("poolsize", 10), MaxSegs: 1 + src.Intn("maxsegs", 5), Hosts: src.Intn("hosts", 3) == 2,
-		WildHeavy: sim.Bool(src, "wildheavy"), TSlash: src.Intn("tslash", 4), Fanout: src.Intn("fanout", 12) == 11}
+		WildHeavy: sim.Bool(src, "wildheavy"), TSlash: src.Intn("tslash", 4), Fanout: src.Intn("fanout", 12) == 11, Deep: src.Intn("deep", 12) == 11, Odd: src.Intn("oddbytes", 5) == 4}
 	pool := world.GenPool(src, pc)
 	if len(pool) == 0 {
 		return res
@@ -178,14 +178,19 @@ func runC02(src sim.Source, o Opts) *Result {
 	nsteps := 4 + src.Intn("nsteps", 24)
 	var history []string
 	effIns, effDel := 0, 0
-	if pc.Fanout {
-		msg, ok := prefillFanout(w, committed, cfg, pool, &nextTag)
+	if pc.Fanout || pc.Deep {
+		msg, ok := prefillFanout(src, w, committed, cfg, pool, &nextTag)
 		if !ok {
 			res.fail("C02/result", "%s", msg)
 			return res
 		}
 		history = append(history, msg)
-		res.inc("runs_with_fanout_above_50")
+		if pc.Fanout {
+			res.inc("runs_with_fanout_above_50")
+		}
+		if pc.Deep {
+			res.inc("runs_on_tree_deeper_than_25")
+		}
 	}
 
 	check := func(where string, rd world.Reader, set *model.Set) bool {
